@@ -10,7 +10,7 @@ from vpc.core import cN, cstr, cbytes, clist, copt, cbool
 NF = 999999
 IMPORTS = "Require Import V.model.RecordStore."
 THEOREMS = ["get_only_put_values", "settled_reads_latest", "late_notification_relists_refuted",
-            "schedule_independence", "names_injective", "store_constants"]
+            "names_injective", "names_roundtrip", "store_constants"]
 RULE = ("a case is a whole history over 2-12 keys (32-byte random keys; adversarial: keys sharing their "
         "first 8 bytes (= same nonce), sharing long prefixes/suffixes, 1-byte keys, 128-byte keys whose file "
         "name exceeds NAME_MAX) and 3-10 values (all record kinds, bad headers, 3 B - 64 KiB): validated puts "
